@@ -250,10 +250,14 @@ class StackedLift:
         self.proxy = npproxy.Proxy()
         extra = [(sts, "simulate_frame", lifted_frame), (sts, "_nq", types.SimpleNamespace(damped_newton=stub_newton, ExitStatus=realnq.ExitStatus)),
                  npproxy.adaptations_patch(self.proxy)]
+        mods = list(self.mods)
         if self.capture_jacobian:
             from irispie.jacobians import base as jb
+            from irispie.aldi import differentiators as ad
+            from irispie.stacked_time import _jacobians as stj
             extra.append((jb.SparseJacobian, "_initialize_jacobian_matrix", lambda self_: DenseObjectMatrix.zeros(self_._shape)))
-        self._ctx = npproxy.installed(self.proxy, *self.mods, extra=extra)
+            mods += [ad, jb, stj]
+        self._ctx = npproxy.installed(self.proxy, *mods, extra=extra)
         self._ctx.__enter__()
         return self
 
